@@ -299,7 +299,7 @@ theorem residue_applyEdit (parse : HeaderParser) (m : Node → Bool) (e : FnEdit
                 simp only
                 rw [residue_at_header m b pre _ _ hsel1, residue_at_header m b pre hd _ hsel]
               | some v =>
-                simp only [setAt_append_length]
+                simp only
                 rw [residue_at_header m b pre _ _ (by rw [S.hdr _ v hk1]; exact hsel1), residue_at_header m b pre hd _ hsel]
 
 /-- the whole loop keeps the residue, for a selector that works for every edit of the list -/
@@ -332,14 +332,14 @@ theorem filter_residue (m : Node → Bool) (p : Node → Bool) (hp : ∀ n, p n 
         cases hpx : p x with
         | false => rfl
         | true => have := (hp x hpx).1; simp [hm] at this
-      simp [List.filter_cons, this, ih true]
+      simp [this, ih true]
     · split
       · rename_i hd
         have : p x = false := by
           cases hpx : p x with
           | false => rfl
           | true => have := (hp x hpx).2; simp [this] at hd
-        simp [List.filter_cons, this, ih true]
+        simp [this, ih true]
       · simp [List.filter_cons, ih false]
 
 theorem touched_isDefKind (es : List FnEdit) (n : Node) (h : touched es n = true) : isDefKind n.kind = true := by
